@@ -67,8 +67,8 @@ def job(kind: str, name: str, patch: Path | None, props: list[str]) -> dict:
         except Exception:  # noqa: BLE001
             data = {p: [2, ["ANALYSIS-ERROR fastcheck failed: " + (pr.stderr.strip().splitlines() or ["?"])[-1][:200]]] for p in props}
         for p in props:
-            rc, lines = data.get(p, [2, ["ANALYSIS-ERROR no verdict"]])
-            res[p] = (rc, lines[:3])
+            got = data.get(p, [2, ["ANALYSIS-ERROR no verdict"]])
+            res[p] = (got[0], got[1][:3])
         return {"kind": kind, "name": name, "res": res}
     finally:
         shutil.rmtree(tmp, ignore_errors=True)
